@@ -15,9 +15,17 @@
 
    Names ending in [_partial] are weaker than the informal claim; the header of
    Crypto/DLEQ.v says exactly how.  The laws are proved satisfiable (Z/101, below); they are
-   NOT proved for secp256k1 (trusted mathematics, DESIGN.md section 4). *)
+   NOT proved for secp256k1 (trusted mathematics, DESIGN.md section 4).
+
+   The last part instantiates the theorems at [BDHKEsecp.secp_ops], the secp256k1 operations
+   that the extracted runner executes against /repo/crypto/bdhke.go and nut12.go (stream
+   c10-bdhke): [go_sign], [go_unblind], [go_generate_dleq], [go_verify_dleq] ARE the generic
+   [sign], [unblind], [dleq_gen], [dleq_verify] applied to [secp_ops] and to the real HashE
+   (SHA-256 over the hex text of the uncompressed points).  Those corollaries carry the
+   hypothesis [secp_laws] = the laws hold on points satisfying the curve equation. *)
 From Coq Require Import ZArith Znumtheory Bool.
 From Verif Require Import Group BDHKE DLEQ.
+From Verif Require Secp256k1 H2C BDHKEsecp.
 Open Scope Z_scope.
 
 (* ===================================================================================== *)
@@ -404,3 +412,104 @@ Example C10_hash_range_needed :
   let p := dleq_gen Z101 H101_big 45 B_ C_ 77 in
   dleq_verify Z101 H101_big (fst p) (snd p) (pubkey Z101 45) B_ C_ = false.
 Proof. vm_compute. reflexivity. Qed.
+
+(* ===================================================================================== *)
+(* The executed secp256k1 instance                                                       *)
+(* ===================================================================================== *)
+
+(* Laws relative to a validity predicate give the theorems for the RAW operations on valid
+   elements (not only for the subset type). *)
+Theorem C10_on_valid_unblind_sign_blind : forall g valid, group_laws_on g valid ->
+  forall k r (Y : carrier g), valid Y = true ->
+  unblind g (sign g k (blind g Y r)) r (pubkey g k) = smul g k Y.
+Proof. exact BDHKEsecp.on_unblind_sign_blind. Qed.
+Print Assumptions C10_on_valid_unblind_sign_blind.
+
+Theorem C10_on_valid_verify_unblinded : forall g valid, group_laws_on g valid ->
+  forall k r (Y : carrier g), valid Y = true ->
+  verify g k Y (unblind g (sign g k (blind g Y r)) r (pubkey g k)) = true.
+Proof. exact BDHKEsecp.on_verify_unblinded. Qed.
+Print Assumptions C10_on_valid_verify_unblinded.
+
+Theorem C10_on_valid_unblind_indep_of_r : forall g valid, group_laws_on g valid ->
+  forall k (Y : carrier g) r r', valid Y = true ->
+  unblind g (sign g k (blind g Y r)) r (pubkey g k) =
+  unblind g (sign g k (blind g Y r')) r' (pubkey g k).
+Proof. exact BDHKEsecp.on_unblind_indep_of_r. Qed.
+Print Assumptions C10_on_valid_unblind_indep_of_r.
+
+Theorem C10_on_valid_verify_wrong_key : forall g valid, group_laws_on g valid ->
+  forall k k' (Y : carrier g), valid Y = true ->
+  k mod gq g <> k' mod gq g -> Y <> gzero g -> verify g k' Y (smul g k Y) = false.
+Proof. exact BDHKEsecp.on_verify_wrong_key. Qed.
+Print Assumptions C10_on_valid_verify_wrong_key.
+
+Theorem C10_on_valid_dleq_complete : forall g valid, group_laws_on g valid ->
+  forall (HashE : carrier g -> carrier g -> carrier g -> carrier g -> Z) a B_ nonce e s,
+  valid B_ = true ->
+  0 <= HashE (smul g nonce (gG g)) (smul g nonce B_) (pubkey g a) (sign g a B_) < gq g ->
+  dleq_gen g HashE a B_ (sign g a B_) nonce = (e, s) ->
+  dleq_verify g HashE e s (pubkey g a) B_ (sign g a B_) = true.
+Proof. exact BDHKEsecp.on_dleq_complete. Qed.
+Print Assumptions C10_on_valid_dleq_complete.
+
+Theorem C10_on_valid_dleq_mint_to_third_party : forall g valid, group_laws_on g valid ->
+  forall (HashE : carrier g -> carrier g -> carrier g -> carrier g -> Z) a Y r nonce e s,
+  valid Y = true ->
+  let B_ := blind g Y r in
+  let C_ := sign g a B_ in
+  0 <= HashE (smul g nonce (gG g)) (smul g nonce B_) (pubkey g a) C_ < gq g ->
+  dleq_gen g HashE a B_ C_ nonce = (e, s) ->
+  dleq_verify_proof g HashE e s r (pubkey g a) Y (unblind g C_ r (pubkey g a)) = true /\
+  verify g a Y (unblind g C_ r (pubkey g a)) = true.
+Proof. exact BDHKEsecp.on_dleq_mint_to_third_party. Qed.
+Print Assumptions C10_on_valid_dleq_mint_to_third_party.
+
+Theorem C10_on_valid_dleq_sound_unique_challenge : forall g valid, group_laws_on g valid ->
+  forall a c (B_ R1 R2 : carrier g) e1 s1 e2 s2,
+  valid B_ = true ->
+  a mod gq g <> c mod gq g -> B_ <> gzero g ->
+  dleq_R1 g e1 s1 (pubkey g a) = R1 -> dleq_R2 g e1 s1 B_ (sign g c B_) = R2 ->
+  dleq_R1 g e2 s2 (pubkey g a) = R1 -> dleq_R2 g e2 s2 B_ (sign g c B_) = R2 ->
+  e1 mod gq g = e2 mod gq g.
+Proof. exact BDHKEsecp.on_dleq_sound_unique_challenge. Qed.
+Print Assumptions C10_on_valid_dleq_sound_unique_challenge.
+
+(* The functions run against the Go code.  [secp_laws] is the trusted mathematical fact. *)
+Theorem C10_secp_unblind_sign_blind : BDHKEsecp.secp_laws ->
+  forall k r Y, Secp256k1.on_curve Y = true ->
+  BDHKEsecp.go_unblind (BDHKEsecp.go_sign (blind BDHKEsecp.secp_ops Y r) k) r
+    (Secp256k1.pt_mul k Secp256k1.secp_G) = Secp256k1.pt_mul k Y.
+Proof. exact BDHKEsecp.secp_unblind_sign_blind. Qed.
+Print Assumptions C10_secp_unblind_sign_blind.
+
+Theorem C10_secp_verify_unblinded : BDHKEsecp.secp_laws ->
+  forall k r Y, Secp256k1.on_curve Y = true ->
+  verify BDHKEsecp.secp_ops k Y
+    (BDHKEsecp.go_unblind (BDHKEsecp.go_sign (blind BDHKEsecp.secp_ops Y r) k) r
+       (Secp256k1.pt_mul k Secp256k1.secp_G)) = true.
+Proof. exact BDHKEsecp.secp_verify_unblinded. Qed.
+Print Assumptions C10_secp_verify_unblinded.
+
+Theorem C10_secp_dleq_complete : BDHKEsecp.secp_laws ->
+  forall a B_ nonce e s, Secp256k1.on_curve B_ = true ->
+  0 <= BDHKEsecp.secp_hashE (Secp256k1.pt_mul nonce Secp256k1.secp_G) (Secp256k1.pt_mul nonce B_)
+         (Secp256k1.pt_mul a Secp256k1.secp_G) (BDHKEsecp.go_sign B_ a) < Secp256k1.secp_n ->
+  BDHKEsecp.go_generate_dleq a B_ (BDHKEsecp.go_sign B_ a) nonce = (e, s) ->
+  BDHKEsecp.go_verify_dleq e s (Secp256k1.pt_mul a Secp256k1.secp_G) B_ (BDHKEsecp.go_sign B_ a) = true.
+Proof. exact BDHKEsecp.secp_dleq_complete. Qed.
+Print Assumptions C10_secp_dleq_complete.
+
+(* A run of the executed instance with short scalars (a full-size scalar multiplication costs
+   about 30 s in the VM; full-size runs are what the c10-bdhke stream does, extracted):
+   Y = 3.G, r = 7, k = 5: unblinding gives k.Y = 15.G, it verifies, not under k = 6. *)
+Example C10_nonvacuous_secp_round :
+  let g := BDHKEsecp.secp_ops in
+  let Y := Secp256k1.pt_mul 3 Secp256k1.secp_G in
+  let C := BDHKEsecp.go_unblind (BDHKEsecp.go_sign (blind g Y 7) 5) 7 (pubkey g 5) in
+  Secp256k1.on_curve Y = true /\
+  C = Secp256k1.pt_mul 15 Secp256k1.secp_G /\
+  verify g 5 Y C = true /\
+  verify g 6 Y C = false /\
+  BDHKEsecp.go_unblind (BDHKEsecp.go_sign (blind g Y 2) 5) 2 (pubkey g 5) = C.
+Proof. vm_compute. repeat split; reflexivity. Qed.
